@@ -78,11 +78,15 @@ Qed.
 Lemma eqb_iff_bool (b : bool) (P : Prop) (c : bool) : (b = true <-> P) -> (c = true <-> P) -> Bool.eqb b c = true.
 Proof. destruct b, c; cbn; intros [A B] [C D]; try reflexivity; exfalso; try (discriminate (D (A eq_refl))); try (discriminate (B (C eq_refl))). Qed.
 
+Lemma eqb_negb (a b : bool) : Bool.eqb (negb a) (negb b) = Bool.eqb a b.
+Proof. destruct a, b; reflexivity. Qed.
+
 Lemma C20_model_ok_lemma c sz al : fits (k_ty c) (k_v c) -> fits (k_ty c) (k_x c) ->
   sz = N.of_nat (e_size (k_ty c)) -> ok_C20 c (run_C20 c sz al) = true.
 Proof.
   destruct c as [t v x]; cbn [k_ty k_v k_x]. intros Hv Hx ->.
-  unfold ok_C20, run_C20; cbn [k_ty k_v k_x b_bytes b_native b_eq1 b_eq2 b_size b_align b_nsize b_nalign b_routes].
+  unfold ok_C20, run_C20; cbn [k_ty k_v k_x b_bytes b_native b_eq1 b_eq2 b_ne1 b_ne2 b_size b_align b_nsize b_nalign b_routes].
+  rewrite !eqb_negb.
   rewrite bytes_wire by exact Hv. rewrite roundtrip_lemma by exact Hv.
   destruct (eq_iff_lemma t v x Hv Hx) as [E1 E2]. rewrite roundtrip_lemma in E2 by exact Hv.
   assert (L : list_eqb (wire_bytes t v) (wire_bytes t v) = true) by (apply list_eqb_eq; reflexivity).
